@@ -105,6 +105,10 @@ def scenario(rng, kind=None, mode=None, removal=None, builtin_p=0.6, prog_p=0.4)
         if rng.random() < 0.5:
             sc["P0"] = (gen.logu(rng, 1e-3, 0.2), gen.logu(rng, 1e-5, 1e-2), rng.choice([KG, KG, "SI", "GPU"]))
         sc["warmup"] = rng.random() < 0.4
+        # explicit orders / zero points for the fits (None = let the search choose), the options the call implies
+        sc["fitopts"] = {"n_first": rng.choice([None, None, 0, 1]), "m_first": rng.choice([None, None, 0, 1]),
+                         "n_second": rng.choice([None, None, 0, 1]), "m_second": rng.choice([None, None, 0, 1]),
+                         "include_zero": rng.random() < 0.3}
     if kind.endswith("noniso") and rng.random() < prog_p:
         sc["want_prog"] = True
     return sc
@@ -134,6 +138,7 @@ def call_model(perv, sc, cond):
     if kind == "ideal_noniso":
         return perv.ideal_non_isothermal_process(**kw)
     kw.update(diffusion_curve_set=sc["curves"], initial_permeances=initial_perms(sc))
+    kw.update(sc.get("fitopts") or {})
     if kind == "nonideal_iso":
         return perv.non_ideal_isothermal_process(**kw)
     return perv.non_ideal_non_isothermal_process(**kw)
@@ -286,7 +291,7 @@ def fit_desc(f):
     return {"alpha": F(f.alpha), "a": [F(v) for v in f.a], "b": [F(v) for v in f.b]}
 
 
-def fit_oracle(sc, membrane, include_zero=False):
+def fit_oracle(sc, membrane, include_zero=False, model_kind="process"):
     """what the PUBLIC best-fit search produces from each component's permeances in the curve set, with the options
     the non-ideal models imply (m = 0 for a single curve), and the membrane's public activation energies"""
     from pyvaporation.optimizer import Measurements, find_best_fit
@@ -294,8 +299,13 @@ def fit_oracle(sc, membrane, include_zero=False):
     single = len(cs.diffusion_curves) == 1
     m1 = Measurements.from_diffusion_curves_first(cs)
     m2 = Measurements.from_diffusion_curves_second(cs)
-    f1 = find_best_fit(data=m1, n=None, m=0 if single else None, include_zero=include_zero, component_index=0)
-    f2 = find_best_fit(data=m2, n=None, m=0 if single else None, include_zero=include_zero, component_index=1)
+    fo = sc.get("fitopts") or {}
+    # single curve: m = 0; the process models then never add zero points, the curve model passes include_zero through
+    iz = fo.get("include_zero", include_zero)
+    if single and model_kind == "process":
+        iz = False
+    f1 = find_best_fit(data=m1, n=fo.get("n_first"), m=0 if single else fo.get("m_first"), include_zero=iz, component_index=0)
+    f2 = find_best_fit(data=m2, n=fo.get("n_second"), m=0 if single else fo.get("m_second"), include_zero=iz, component_index=1)
     ea = []
     for comp in (sc["mix"].first_component, sc["mix"].second_component):
         try:
@@ -415,6 +425,10 @@ def nicurve_trace(rng):
     kw = dict(diffusion_curve_set=cs, feed_temperature=T, initial_feed_composition=c0, delta_composition=rng.uniform(0.005, 0.04),
               number_of_steps=n, permeate_temperature=rng.uniform(200.0, T - 25.0) if mode == "temp" else None,
               permeate_pressure=rng.uniform(0.0, 3.0) if mode == "press" else None, calculation_type=model)
+    sc["fitopts"] = {"n_first": rng.choice([None, None, 0, 1]), "m_first": rng.choice([None, None, 0, 1]),
+                     "n_second": rng.choice([None, None, 0, 1]), "m_second": rng.choice([None, None, 0, 1]),
+                     "include_zero": rng.random() < 0.3}
+    kw.update(sc["fitopts"])
     if rng.random() < 0.5:
         u = rng.choice([KG, "SI", "GPU"])
         P0 = (pv.Permeance(gen.logu(rng, 1e-3, 0.2)).convert(u, mix.first_component),
@@ -424,8 +438,8 @@ def nicurve_trace(rng):
         d = perv.non_ideal_diffusion_curve(**kw)
     except Exception as e:  # noqa: BLE001
         return [{"ev": "NIStart", "outcome": "raise", "exc": type(e).__name__, "hasFits": False}]
-    fo = fit_oracle(sc, membrane)
-    tr = [{"ev": "NIStart", "outcome": "return", "hasFits": True, "single": fo["single"], "fits_orc": fo["orc"], "Ea": fo["Ea"],
+    fo = fit_oracle(sc, membrane, model_kind="curve")
+    tr = [{"ev": "NIStart", "outcome": "return", "hasFits": True, "fitopts": str(sc["fitopts"]), "single": fo["single"], "fits_orc": fo["orc"], "Ea": fo["Ea"],
            "T": F(T), "Tcurve": F(cs.diffusion_curves[0].feed_temperature), "x0w": F(c0.to_weight(mix).p), "basis": basis,
            "N": n, "P0given": P0 is not None, "model": model, "mode": mode, "mixname": mix.name,
            "P0kg": [0.0, 0.0] if P0 is None else [F(P0[0].convert(KG, mix.first_component).value), F(P0[1].convert(KG, mix.second_component).value)]}]
